@@ -91,6 +91,7 @@ func InitTimeoutParamsFromConfig(conf *viper.Viper) *TimeoutParams {
 var (
 	ErrInvalidProposalSignature = errors.New("Error invalid proposal signature")
 	ErrInvalidProposalPOLRound  = errors.New("Error invalid proposal POL round")
+	ErrInvalidProposalPartTotal = errors.New("Error invalid proposal block parts total")
 	ErrAddingVote               = errors.New("Error adding vote")
 	ErrVoteHeightMismatch       = errors.New("Error vote height mismatch")
 )
@@ -1367,6 +1368,12 @@ func (cs *ConsensusState) defaultSetProposal(proposal *types.Proposal) error {
 	if proposal.POLRound != -1 &&
 		(proposal.POLRound < 0 || proposal.Round <= proposal.POLRound) {
 		return ErrInvalidProposalPOLRound
+	}
+
+	// The parts total sizes an allocation (NewPartSetFromHeader): it must be positive
+	// and cannot exceed the number of bytes a block may have.
+	if proposal.BlockPartsHeader.Total <= 0 || proposal.BlockPartsHeader.Total > types.MaxBlockSize {
+		return ErrInvalidProposalPartTotal
 	}
 
 	// Verify signature
